@@ -245,7 +245,7 @@ def run_model(model, lines):
         tmp = f.name
     try:
         with open(tmp) as fin:
-            p = subprocess.run(["lake", "env", "lean", "--run", "Main.lean", model], cwd=LEAN_DIR, stdin=fin,
+            p = subprocess.run(["lake", "env", "lean", "--run", f"Drivers/{model}.lean"], cwd=LEAN_DIR, stdin=fin,
                                capture_output=True, text=True, timeout=3000)
     finally:
         os.unlink(tmp)
@@ -309,7 +309,7 @@ def run_check(pid, tier, seed, replay=None):
     ctx.tie_breaks = []
 
     # 2. build ---------------------------------------------------------------------------
-    ok, build_log, errors = build(lean_mods + ["PyrollModel"])
+    ok, build_log, errors = build(lean_mods + list(getattr(mod, "MODEL_MODULES", [])))
     for m in lean_mods:
         theorems += [(m, t, ln) for (t, ln) in theorems_of(m)]
     if not ok:
